@@ -1025,6 +1025,26 @@ pub fn swarm_for(profile: &str, rng: &mut Rng, thorough: bool) -> Swarm {
                 sw.w.rollback = 1;
             }
         }
+        "iso" => {
+            sw.sessions = if rng.chance(1, 3) { 3 } else { 2 };
+            sw.n_ops = rng.range(8, 40) as usize;
+            sw.max_tables = rng.range(1, 2) as usize;
+            sw.p_pk = 100;
+            sw.p_unique = 0;
+            sw.p_long = 0;
+            sw.types = vec![Ty::Int, Ty::BigInt, Ty::Text];
+            sw.key_domain = rng.range(5, 10);
+            sw.w.begin = 10;
+            sw.w.commit = 8;
+            sw.w.rollback = 4;
+            sw.w.select = 30;
+            sw.w.count = 4;
+            sw.w.create_index = 0;
+            sw.w.drop_index = 0;
+            sw.p_multi_insert = 10;
+            sw.p_returning = 0;
+            sw.apis = vec![Api::Literal];
+        }
         "crash" => {
             sw.cfg = DbConfig::durable();
             sw.n_ops = rng.range(4, if thorough { 40 } else { 22 }) as usize;
